@@ -178,6 +178,56 @@ func runAdapter(r *prng.R, s *out.Sink, tier string) {
 				s.Violate("C19", fmt.Sprintf("%s: message %s routed by the library with IsBroadcast=%v is classified broadcast=%v by the receiver", c.kind, a.TypeUrl, m.bcast, bc), a.TypeUrl)
 			}
 		}
+		// the classification depends on the message alone — also when the orchestrator's dispatcher goroutines classify
+		// several messages at once on the same instance (threshold.Scheme.handleMPC holds no lock around the classifier)
+		{
+			type sample struct {
+				data []byte
+				url  string
+				rd   uint8
+				bc   bool
+			}
+			var samples []sample
+			seen := map[string]bool{}
+			for _, m := range caps {
+				a := &any.Any{}
+				if proto.Unmarshal(m.data, a) != nil || seen[a.TypeUrl] {
+					continue
+				}
+				if rd, bc, err := classifier.ClassifyMsg(m.data); err == nil {
+					seen[a.TypeUrl] = true
+					samples = append(samples, sample{m.data, a.TypeUrl, rd, bc})
+				}
+			}
+			if len(samples) >= 2 {
+				var wg sync.WaitGroup
+				var mu sync.Mutex
+				bad := map[string]string{}
+				for g := 0; g < 8; g++ {
+					g := g
+					wg.Add(1)
+					go func() {
+						defer wg.Done()
+						defer func() { recover() }()
+						for k := 0; k < 3000; k++ {
+							x := samples[(g+k)%len(samples)]
+							rd, bc, err := classifier.ClassifyMsg(x.data)
+							if err != nil || rd != x.rd || bc != x.bc {
+								mu.Lock()
+								bad[x.url] = fmt.Sprintf("(round %d, broadcast %v, err %v) where the same message alone is classified (round %d, broadcast %v)", rd, bc, err, x.rd, x.bc)
+								mu.Unlock()
+							}
+						}
+					}()
+				}
+				wg.Wait()
+				s.Count(c.kind + "/classify-concurrent")
+				s.N++
+				for url, what := range bad {
+					s.Violate("C19", fmt.Sprintf("%s: classified concurrently with messages of other types on the same instance, %s came out as %s", c.kind, url, what), url)
+				}
+			}
+		}
 		s.Extra[fmt.Sprintf("%s-%d-%d messages", c.kind, c.n, c.t)] = len(caps)
 		s.Extra[fmt.Sprintf("%s-%d-%d types", c.kind, c.n, c.t)] = len(seenURL)
 	}
